@@ -51,6 +51,8 @@ type Script struct {
 	Convs       []*Conv
 	Actions     []*Action
 	NPackets    int
+	// EventIndex is set by Flat: index of an event action in the original script -> its index in the flat script
+	EventIndex map[int]int
 }
 
 // Options select the domain of DrawScript.
@@ -275,12 +277,13 @@ func (a *Action) touches(iface int) bool {
 func (s *Script) Flat(drop, late map[int]bool) *Script {
 	f := *s
 	f.Actions = nil
+	f.EventIndex = map[int]int{}
 	add := func(at int64, iface int, p *Packet) {
 		if p != nil && !drop[p.ID] {
 			f.Actions = append(f.Actions, &Action{Kind: ActPkt, At: at, Iface: iface, P: p})
 		}
 	}
-	for _, a := range s.Actions {
+	for oi, a := range s.Actions {
 		if a.Kind == ActPkt {
 			add(a.At, a.Iface, a.P)
 			continue
@@ -297,6 +300,7 @@ func (s *Script) Flat(drop, late map[int]bool) *Script {
 		b := *a
 		b.Win = make([]*Window, len(s.Ifaces))
 		f.Actions = append(f.Actions, &b)
+		f.EventIndex[oi] = len(f.Actions) - 1
 		// the driver delivers deferred packets in the order in which the call-backs gave up on them: per interface
 		// Pre (if late), then In, then Post; interfaces in the order the manager visited them, which does not matter
 		// because flows are kept per interface
